@@ -1,4 +1,5 @@
 import DPProofs.Lemmas.Parser
+import DPModel.DP.Pipeline
 /-!
 # C10 — strictness only filters; strict results never borrow from the clock
 
@@ -118,5 +119,44 @@ theorem C10_clock_free (st : PSettings) (toks : List TI) (now' : DT) (off' : Opt
 /-- non-vacuity: a strict configuration and a token list for which both disjuncts of `C10_filter` are distinguishable -/
 example : checkStrict { strict := true } [Comp.day] = .error (.value .strict) ∧ checkStrict { strict := true } [] = .ok () := by
   constructor <;> simp [checkStrict]
+
+
+/-- **C10_formats**: the custom-format parser returns a reading of a format only if that format expresses every part
+    STRICT_PARSING / REQUIRE_PARTS demand.  The first hypothesis is a *generated* fact: the translator records whether
+    `parse_with_formats` in /repo consults `_check_strict_parsing`; it is discharged by `rfl` below and stops checking if the
+    call disappears from the source. -/
+theorem C10_formats_step (hsrc : Gen.pwfChecksStrict = true) (st : Settings) (s f : String) (v : ADT × Period)
+    (h : pwfOne st s f = .hit v) : checkStrict (psettingsOf st st.dateOrder 0) (missingParts f) = .ok () := by
+  unfold pwfOne at h
+  split at h
+  · cases h
+  · split at h <;> cases h
+  · split at h
+    · cases h
+    · rename_i hs
+      unfold pwfStrictOk at hs
+      rw [hsrc] at hs
+      simp only [if_true] at hs
+      cases hc : checkStrict (psettingsOf st st.dateOrder 0) (missingParts f) with
+      | ok u => rfl
+      | error e => rw [hc] at hs; simp at hs
+
+theorem C10_formats (hsrc : Gen.pwfChecksStrict = true) (st : Settings) (s : String) (fmts : List String) (v : ADT × Period)
+    (h : parseWithFormats st s fmts = .res (.ok (some v))) :
+    ∃ f ∈ fmts, checkStrict (psettingsOf st st.dateOrder 0) (missingParts f) = .ok () := by
+  induction fmts with
+  | nil => simp [parseWithFormats] at h
+  | cons f fs ih =>
+    unfold parseWithFormats at h
+    split at h
+    · cases h
+    · obtain ⟨g, hg, hc⟩ := ih h
+      exact ⟨g, List.mem_cons_of_mem _ hg, hc⟩
+    · cases h
+    · rename_i v' hv'
+      exact ⟨f, List.mem_cons_self, C10_formats_step hsrc st s f v' hv'⟩
+
+/-- the generated fact holds for the current source -/
+theorem C10_formats_source : Gen.pwfChecksStrict = true := by rfl
 
 end DP
